@@ -104,7 +104,8 @@ def bound_src(P, b, level_id):
     """`bound(...)` text for BoundOpt b written at level level_id, or None when absent"""
     tp = first_type_param(P) or "u8"
     pred = "%s: M_%s" % (tp, lid(level_id))
-    ty = "W_%s<%s>" % (lid(level_id), tp)
+    # (conc_ty: the explicit Type entries name no generic parameter at all - they count all the same)
+    ty = ("Wc_%s" % lid(level_id)) if P.get("conc_ty") else "W_%s<%s>" % (lid(level_id), tp)
     return {"absent": None, "empty": "bound()", "P": "bound(%s)" % pred, "dd": "bound(..)", "Pdd": "bound(%s, ..)" % pred,
             "T": "bound(%s)" % ty, "Tdd": "bound(%s, ..)" % ty, "ddP": "bound(.., %s)" % pred, "ddT": "bound(.., %s)" % ty}[b]
 
@@ -238,6 +239,18 @@ def item_parts(P, name="X"):
 def requests_for(P, rid, entries=("attr", "derive")):
     attr, item = item_parts(P)
     reqs = []
+    # a SECOND list on the type, for another trait, with a shared bound of its own: it is that list's business only
+    ol = P.get("other_list")
+    if ol:
+        tp = first_type_param(P) or "u8"
+        other = "%s, bound(%s: M_other%s)" % (ol["t"], tp, ", .." if ol.get("dd") else "")
+        first, second = (other, attr) if ol["pos"] == "before" else (attr, other)
+        for e in entries:
+            if e == "attr":
+                reqs.append({"k": "expand", "id": rid, "entry": "attr", "attr": first, "item": "#[derive_ex(%s)] %s" % (second, item)})
+            else:
+                reqs.append({"k": "expand", "id": rid, "entry": "derive", "attr": "", "item": "#[derive_ex(%s)] #[derive_ex(%s)] %s" % (first, second, item)})
+        return reqs
     for e in entries:
         if e == "attr":
             reqs.append({"k": "expand", "id": rid, "entry": "attr", "attr": attr, "item": item})
@@ -316,7 +329,7 @@ def tag_texts(P, form):
         ids = [sid + ".h." + a for a in HELPERS] + [sid + ".this", sid + ".common"]
         for x in ids:
             out.append(("pred@" + x, "%s: M_%s" % (tp, lid(x))))
-            out.append(("ty@" + x, form_atom("W_%s<%s>" % (lid(x), tp), t, form)))
+            out.append(("ty@" + x, form_atom(("Wc_%s" % lid(x)) if P.get("conc_ty") else "W_%s<%s>" % (lid(x), tp), t, form)))
     scope(P["tb"], "t")
     for vi, v in enumerate(P["variants"]):
         if P["kind"] == "enum":
